@@ -54,18 +54,19 @@ var c15PolicyNames = []consts.DialerSelectionPolicy{
 const c15Hour = int64(time.Hour)
 
 type c15World struct {
-	n       int
-	opt     *dialer.GlobalOption
-	dialers []*dialer.Dialer
-	foreign *dialer.Dialer
-	types   [6]*dialer.NetworkType
-	g       *DialerGroup
-	cbs     []string
-	pens    [][6]int64
-	policy  consts.DialerSelectionPolicy
-	lastSel int
-	st      *VStream
-	stats   *VStats
+	n        int
+	opt      *dialer.GlobalOption
+	dialers  []*dialer.Dialer
+	foreign  *dialer.Dialer
+	types    [6]*dialer.NetworkType
+	g        *DialerGroup
+	cbs      []string
+	pens     [][6]int64
+	policy   consts.DialerSelectionPolicy
+	lastSel  int
+	lastBest map[int]string
+	st       *VStream
+	stats    *VStats
 }
 
 func c15NewDialer(opt *dialer.GlobalOption, name string) *dialer.Dialer {
@@ -86,7 +87,7 @@ func c15NewWorld(st *VStream, stats *VStats, n int, logInfo bool) *c15World {
 	} else {
 		lg.SetLevel(logrus.PanicLevel)
 	}
-	w := &c15World{n: n, st: st, stats: stats, lastSel: -1}
+	w := &c15World{n: n, st: st, stats: stats, lastSel: -1, lastBest: map[int]string{}}
 	w.opt = &dialer.GlobalOption{Log: lg, CheckInterval: 30 * time.Second}
 	for i := 0; i < n; i++ {
 		w.dialers = append(w.dialers, c15NewDialer(w.opt, "n"+strconv.Itoa(i)))
@@ -173,11 +174,42 @@ func (w *c15World) makeGroup(tol int64, pol consts.DialerSelectionPolicy, fixedI
 	w.st.Emit(op, out)
 }
 
+func c15BestOf(dump string) string {
+	i := strings.Index(dump, " best=")
+	if i < 0 {
+		return ""
+	}
+	rest := dump[i+6:]
+	if j := strings.IndexByte(rest, ':'); j >= 0 {
+		return rest[:j]
+	}
+	return ""
+}
+
 func (w *c15World) afterTell(t, d int) string {
 	if w.g == nil {
 		return "nogroup"
 	}
-	return w.takeCbs() + " " + w.setDump(t)
+	dump := w.setDump(t)
+	// distribution of what happened to the cached choice of this domain (min policies)
+	if strings.Contains(dump, " pol=min") {
+		b := c15BestOf(dump)
+		prev, seen := w.lastBest[t]
+		switch {
+		case !seen || prev == b:
+			w.stats.Inc("best.unchanged")
+		case b == "nil":
+			w.stats.Inc("best.to_nil")
+		case prev == "nil":
+			w.stats.Inc("best.from_nil")
+		default:
+			w.stats.Inc("best.switched")
+		}
+		w.lastBest[t] = b
+	} else {
+		delete(w.lastBest, t)
+	}
+	return w.takeCbs() + " " + dump
 }
 
 func (w *c15World) syncPens(d int) {
